@@ -200,7 +200,7 @@ Lemma read_block_spec c n pos c' pos' r :
 Proof.
   unfold read_block. pose proof (fault_point_fs c SRead) as Hf.
   destruct (fault_point c SRead) as [c1 [e|]]; cbn [fst] in Hf.
-  - intros H; inversion H; subst. split; [exact Hf|exact I].
+  - intros H; inversion H; subst. split; [exact Hf|destruct e; exact I].
   - rewrite file_content_fcontent, Hf.
     destruct (pos + BS P <=? lenN (fcontent (c_fs c) n)); intros H; inversion H; subst.
     + split; [exact Hf|]. split; reflexivity.
